@@ -1153,17 +1153,22 @@ func (u *udpConn) Close() error {
 	if parent.connUDP != u {
 		// This connection is created by reading from a UDP server,
 		// need to clear itself from the UDP server.
-		parent.mux.Lock()
+		// the session table has its own lock: the server may be closing
+		// its sessions at the same time.
+		parent.connUDP.mux.Lock()
 		delete(parent.connUDP.conns, u.rAddrKey)
-		parent.mux.Unlock()
+		parent.connUDP.mux.Unlock()
 	} else {
 		// This connection is a UDP server or dialer, need to close itself
 		// and close all children if this is a server.
 		_ = syscall.Close(u.parent.fd)
-		for _, c := range u.conns {
+		u.mux.Lock()
+		conns := u.conns
+		u.conns = nil
+		u.mux.Unlock()
+		for _, c := range conns {
 			_ = c.Close()
 		}
-		u.conns = nil
 	}
 	return nil
 }
